@@ -33,7 +33,7 @@ SchedPush(s, c, w) ==
                          IN [s1 EXCEPT !.qs = Put(@, c.sid, Append(Get(@, c.sid, <<>>), c)),
                                        !.sfin = Put(@, c.sid, f), !.fin = Put(@, c.id, f)]
 
-\* the stream a peek selects (sticky until the pop) for rr / wfq
+\* the stream a peek selects (rr: sticky until the pop; wfq: smallest finish tag, chosen afresh by every peek)
 WfqPick(s) == LET heads == {sid \in DOMAIN s.qs : s.qs[sid] # <<>>}
                   best == CHOOSE sid \in heads : \A o \in heads :
                              LET fs == s.fin[Head(s.qs[sid]).id] fo == s.fin[Head(s.qs[o]).id] IN fs < fo \/ (fs = fo /\ sid <= o)
@@ -53,8 +53,9 @@ SchedPeek(s) ==
          ELSE IF s.order = <<>> THEN <<s, NoChunk>>
          ELSE <<[s EXCEPT !.picked = Head(s.order)], Head(s.qs[Head(s.order)])>>
     [] s.mode = "wfq" ->
-         IF s.picked >= 0 THEN <<s, Head(s.qs[s.picked])>>
-         ELSE IF Backlogged(s) = {} THEN <<s, NoChunk>>
+         \* every peek chooses afresh (after defect F27: a selection left over from a peek without a pop used to stick,
+         \* was served out of tag order after later pushes, and pushed the virtual time past queued chunks)
+         IF Backlogged(s) = {} THEN <<s, NoChunk>>
          ELSE LET p == WfqPick(s) IN <<[s EXCEPT !.picked = p], Head(s.qs[p])>>
 
 \* pop the chunk the preceding peek returned
